@@ -48,6 +48,17 @@ func genSchema(r *gen.Rand) schema {
 	return s
 }
 
+func hasCaseTwins(t *gtype) bool {
+	for i := range t.Fields {
+		for j := i + 1; j < len(t.Fields); j++ {
+			if strings.EqualFold(t.Fields[i].Name, t.Fields[j].Name) {
+				return true
+			}
+		}
+	}
+	return false
+}
+
 type evolution struct {
 	Kind string `json:"kind"`
 	What string `json:"what"`
@@ -119,8 +130,8 @@ func evolve(r *gen.Rand, s schema, addsOnly bool) (schema, []evolution) {
 			evs = append(evs, evolution{"move-field", t.Name + "." + t.Fields[j].Name + " " + t.Fields[j].File + " -> " + nf})
 			t.Fields[j].File = nf
 		case 6: // the fields of a type stop being resolvers; the type stays
-			if ti == 0 || t.Plain {
-				continue
+			if ti == 0 || t.Plain || hasCaseTwins(t) {
+				continue // (gqlgen binds struct fields case-insensitively: twins stay resolvers whatever the schema says)
 			}
 			t.Plain = true
 			evs = append(evs, evolution{"fields-stop-being-resolvers", t.Name})
